@@ -116,11 +116,6 @@ def NoNested : Bool → List Ev → Prop
     else NoNested inT rest
   | inT, _ :: rest => NoNested inT rest
 
-def inT : Txn → Bool
-  | .begin_ => true
-  | .in_ => true
-  | _ => false
-
 def plainItems : List Ev → List Cmd
   | [] => []
   | .item it :: rest =>
@@ -222,44 +217,49 @@ theorem select_filtered_db_bypasses (c : PCfg) (s : PState) (a : Bytes) (n : Int
 
 /-- an ordinary command is forwarded iff not blacklisted, not the sentinel
     hello, its keys pass, and it is not inside a filtered database -- except the
-    `EXEC` that closes a transaction opened in an UNFILTERED database (`closesTxn`),
-    which is handed over so that the sender leaves its transaction, carrying the
-    offset of the last forwarded item (so that a checkpoint never moves into the
-    filtered region). Forwarded = same name, exactly the filtered arguments, its
-    END offset, the parser's current database. -/
+    transaction brackets (`passBracket`): a `MULTI` that opens and an `EXEC` that
+    closes a transaction are handed over even there (so that the sender's
+    transaction state follows the source and a transaction that leaves or enters
+    the filtered database stays one block), carrying the offset of the last
+    forwarded item (so that a checkpoint never moves into the filtered region).
+    Forwarded = same name, exactly the filtered arguments, its END offset, the
+    parser's current database. -/
 theorem data_command_forwarded_iff (c : PCfg) (s : PState) (r : Raw)
     (hp : r.cmd ≠ bPing) (hs : r.cmd ≠ bSelect) :
     parseStep c s r =
       if c.filterCmd r.cmd then (s, POut.skip)
       else if r.cmd = bPublish ∧ (r.args.head?.map lower) = some bSentinelHello then (s, POut.skip)
-      else if s.bypass ∧ closesTxn s r.cmd = false then (s, POut.skip)
+      else if s.bypass ∧ passBracket s r.cmd = false then (s, POut.skip)
       else match c.filterCmdKey r.cmd r.args with
         | none => (s, POut.skip)
         | some a =>
-          (sent s r.cmd (if closesTxn s r.cmd then s.lastSent else r.off),
+          (sent s r.cmd (if passBracket s r.cmd then s.lastSent else r.off),
            POut.emit { cmd := r.cmd, args := a,
-                       offset := (if closesTxn s r.cmd then s.lastSent else r.off), db := s.currentDB }) :=
+                       offset := (if passBracket s r.cmd then s.lastSent else r.off), db := s.currentDB }) :=
   parseStep_data c s r hp hs
 
-/-- `closesTxn` holds only for an `EXEC`, only inside a filtered database, only
-    while a forwarded `MULTI` is still open -/
-theorem closesTxn_iff (s : PState) (cmd : Bytes) :
-    closesTxn s cmd = true ↔ s.bypass = true ∧ cmd = bExec ∧ s.txnOpen = true := by
-  simp [closesTxn, and_assoc]
+/-- `passBracket` holds only inside a filtered database, only for a `MULTI` while
+    no forwarded transaction is open or an `EXEC` while one is -/
+theorem passBracket_iff (s : PState) (cmd : Bytes) :
+    passBracket s cmd = true ↔
+      s.bypass = true ∧ ((cmd = bMulti ∧ s.txnOpen = false) ∨ (cmd = bExec ∧ s.txnOpen = true)) := by
+  simp [passBracket]
 
-/-- inside a filtered database nothing but that closing `EXEC` is handed over -/
-theorem bypass_forwards_only_closing_exec (c : PCfg) (s : PState) (r : Raw) (i : Item)
+/-- inside a filtered database nothing but such a bracket is handed over, and it
+    carries the offset of the last forwarded item -/
+theorem bypass_forwards_only_brackets (c : PCfg) (s : PState) (r : Raw) (i : Item)
     (hb : s.bypass = true) (hs : r.cmd ≠ bSelect)
     (h : (parseStep c s r).2 = POut.emit i) :
-    i.cmd = bExec ∧ s.txnOpen = true ∧ i.offset = s.lastSent := by
+    ((i.cmd = bMulti ∧ s.txnOpen = false) ∨ (i.cmd = bExec ∧ s.txnOpen = true)) ∧
+    i.offset = s.lastSent := by
   by_cases hp : r.cmd = bPing
   · exfalso
     unfold parseStep at h
     simp only [hp, ↓reduceIte, hb] at h
     cases hf : c.filterCmdKey bPing r.args <;> simp [hf] at h
   · rw [parseStep_data c s r hp hs] at h
-    by_cases hct : closesTxn s r.cmd = true
-    · have h3 := (closesTxn_iff s r.cmd).1 hct
+    by_cases hct : passBracket s r.cmd = true
+    · have h3 := (passBracket_iff s r.cmd).1 hct
       simp only [hct, hb, Bool.true_eq_false, and_false, ↓reduceIte] at h
       split at h
       · simp at h
@@ -270,8 +270,8 @@ theorem bypass_forwards_only_closing_exec (c : PCfg) (s : PState) (r : Raw) (i :
           | some a =>
             simp only [hf, POut.emit.injEq] at h
             subst h
-            exact ⟨h3.2.1, h3.2.2, rfl⟩
-    · have hcf : closesTxn s r.cmd = false := by simpa using hct
+            exact ⟨h3.2, rfl⟩
+    · have hcf : passBracket s r.cmd = false := by simpa using hct
       simp only [hcf, hb, and_self, ↓reduceIte] at h
       split at h
       · simp at h
@@ -279,7 +279,7 @@ theorem bypass_forwards_only_closing_exec (c : PCfg) (s : PState) (r : Raw) (i :
 
 /-- the parser never reorders or runs ahead: the offsets it emits never
     decrease and never exceed what it has consumed; each is the END offset of
-    the source command, or (closing `EXEC` only) of the last item before it -/
+    the source command, or (a bracket inside a filtered database only) of the last item before it -/
 theorem parser_keeps_order (c : PCfg) (raws : List Raw) (s : PState)
     (hraw : (raws.map (·.off)).Pairwise (· < ·)) (hlo : ∀ r ∈ raws, s.lastSent ≤ r.off) :
     ((parseAll c s raws).map (·.offset)).Pairwise (· ≤ ·) ∧
